@@ -405,4 +405,144 @@ example : ∃ bs st, encodeGeometry sampleChoices sampleMesh none sampleMeshOpts
     sampleMesh_ok (fun m h => by cases h) hbs [42]
   exact ⟨bs, st, hbs, h1, h2, rfl⟩
 
+/-! ## 5. decoding with skipped attribute transforms (C10 on encoder outputs) -/
+
+/-- **`seq_skip_roundtrip`**: decoding an encoder-produced sequential stream with the attribute
+    transforms of ANY set `S` of attribute types skipped (`SetSkipAttributeTransform`) returns
+    `expectedSkip S g opts`: attributes of the integer / quantization / normal encoders whose type is
+    in `S` come back as int32 attributes holding the portable values (quantized values, octahedral
+    coordinates, or the integers themselves) with the transform data attached; everything else —
+    points, faces, the other attributes, metadata, consumed bytes — is as in the ordinary decode. -/
+theorem seq_skip_roundtrip (S : List Nat) (ch : Choices) (g : Geometry) (md : Option GeometryMetadata)
+    (opts : EncOpts) (bs : Bytes) (hok : GeomOK g opts) (hmd : ∀ m, md = some m → m.WF')
+    (henc : encodeGeometry ch g md opts = some bs) (extra : Bytes) :
+    ∃ st, decodeGeometry { skip := S } { rest := bs ++ extra } = (some ⟨expectedSkip S g opts, md⟩, st) ∧
+      st.rest = extra := by
+  obtain ⟨encs, hf⟩ := encodeGeometry_full ch g md opts bs henc
+  obtain ⟨st, h1, h2, _⟩ := (runs_decodeStreamWithSkip Eb.decodeEdgebreaker Kd.decodeKdGeometry
+    { skip := S } ch g md opts bs encs hok hmd hf).run { rest := bs ++ extra } extra rfl rfl
+  rw [expectedGeometrySkip_eq S ch g md opts bs encs hf] at h1
+  exact ⟨st, h1, h2⟩
+
+/-- non-vacuity: `samplePC` decoded with the POSITION transform skipped: the int16 position attribute
+    comes back as int32 values -1, 5, 256 -/
+example : ∃ st, decodeGeometry { skip := [0] } { rest :=
+      [68, 82, 65, 67, 79, 2, 3, 0, 0, 0, 0, 3, 0, 0, 0, 1, 2, 4, 9, 1, 0, 7, 0, 3, 1, 0, 0, 0, 1,
+       5, 6, 7, 8, 1, 2, 3, 4, 5, 6, 7, 8, 0, 1, 0, 1, 1, 12, 13, 255, 255, 255, 255, 0, 1, 0, 0] ++ [9] }
+      = (some ⟨expectedSkip [0] samplePC sampleOpts, none⟩, st) ∧ st.rest = [9] :=
+  seq_skip_roundtrip [0] sampleChoices samplePC none sampleOpts _ samplePC_ok
+    (fun m h => by cases h) samplePC_encodes [9]
+
+example : (expectedSkip [0] samplePC sampleOpts).atts.map (fun a => (a.dataType, a.values)) =
+    [(9, [5, 6, 7, 8, 1, 2, 3, 4, 5, 6, 7, 8]),
+     (5, [255, 255, 255, 255, 5, 0, 0, 0, 0, 1, 0, 0])] := by decide +kernel
+
+/-- skipping nothing is the ordinary decode -/
+theorem expectedSkip_nil (g : Geometry) (opts : EncOpts) : expectedSkip [] g opts = expected g opts := by
+  unfold expectedSkip expected
+  congr 1
+  apply List.map_congr_left
+  intro ia _
+  simp [expectedSkipAttributeOf]
+
+/-- attributes that are not skipped (generic encoder, or type not in `S`) are identical to the
+    ordinary decode -/
+theorem seq_skip_unskipped_identical (S : List Nat) (opts : EncOpts) (n i : Nat) (a : Attribute)
+    (h : encoderType a (opts.att i) = 0 ∨ S.contains a.attType = false) :
+    expectedSkipAttributeOf S opts n i a = expectedAttributeOf opts n i a := by
+  unfold expectedSkipAttributeOf
+  rcases h with h | h
+  · simp [h]
+  · simp only [h, Bool.and_false, Bool.false_eq_true, if_false]
+
+/-- **applying the described transform to a skipped attribute gives exactly the ordinary decode**:
+    for every attribute of an encoded geometry whose transform was skipped, reinterpreting its values
+    as int32 and applying the inverse transform given by the attached transform data
+    (`applySkippedTransform`: dequantization / octahedral decoding / for plain integer attributes
+    the narrowing cast to the original type) reproduces the values of the ordinary decode bit for
+    bit; the descriptor keeps attribute type and unique id, the point map is the identity. -/
+theorem seq_skip_transform_applies (S : List Nat) (ch : Choices) (g : Geometry)
+    (md : Option GeometryMetadata) (opts : EncOpts) (bs : Bytes) (hok : GeomOK g opts)
+    (henc : encodeGeometry ch g md opts = some bs) (i : Nat) (a : Attribute)
+    (hi : g.atts[i]? = some a) (hty : encoderType a (opts.att i) ≠ 0)
+    (hs : S.contains a.attType = true) :
+    let s := expectedSkipAttributeOf S opts g.numPoints i a
+    let d := expectedAttributeOf opts g.numPoints i a
+    applySkippedTransform a.dataType s = d.values ∧
+      s.attType = d.attType ∧ s.uniqueId = d.uniqueId ∧ s.numValues = d.numValues ∧
+      s.map = d.map ∧ s.dataType = Generated.DT_INT32.toNat := by
+  intro s d
+  obtain ⟨encs, hf⟩ := encodeGeometry_full ch g md opts bs henc
+  obtain ⟨e, _, he⟩ := encodeAttribute_of_index ch g md opts bs encs hf i a hi
+  have f := attFacts ch opts g.numPoints i a e hok.points (hok.atts i a hi) he
+  obtain ⟨hty', _⟩ := portableOf_eq ch opts g.numPoints i a e he
+  have hs' : s = expectedAttributeSkip S g.numPoints a e :=
+    (expectedAttributeSkip_eq S ch opts g.numPoints i a e he).symm
+  have hd' : d = expectedAttribute g.numPoints a e :=
+    (expectedAttribute_eq ch opts g.numPoints i a e he).symm
+  have hne : e.encType ≠ 0 := by rw [hty']; exact hty
+  refine ⟨by rw [hs', hd']; exact applySkippedTransform_spec S g.numPoints a e f hne hs, ?_⟩
+  have hne' : (e.encType != 0) = true := by simpa using hne
+  rw [hs', hd']
+  simp only [expectedAttributeSkip, hne', hs, Bool.and_self, if_true, expectedAttribute,
+    AttDesc.toAttribute, descOf, and_self]
+
+/-! ## 6. corollaries cited by other properties -/
+
+/-- **C06 (trailing bytes)**: the decode result of an encoder-produced sequential stream does not
+    depend on what follows the stream, and exactly `bs.length` bytes are consumed. -/
+theorem seq_trailing_bytes_ignored (ch : Choices) (g : Geometry) (md : Option GeometryMetadata)
+    (opts : EncOpts) (bs : Bytes) (hok : GeomOK g opts) (hmd : ∀ m, md = some m → m.WF')
+    (henc : encodeGeometry ch g md opts = some bs) :
+    ∃ r : DecodeResult, ∀ extra : Bytes, ∃ st,
+      decodeGeometry {} { rest := bs ++ extra } = (some r, st) ∧
+      (bs ++ extra).length - st.rest.length = bs.length ∧ st.rest = extra := by
+  refine ⟨⟨expected g opts, md⟩, fun extra => ?_⟩
+  obtain ⟨st, h1, h2⟩ := seq_roundtrip ch g md opts bs hok hmd henc extra
+  exact ⟨st, h1, by rw [h2]; simp, h2⟩
+
+def sampleStream : Bytes :=
+  [68, 82, 65, 67, 79, 2, 3, 0, 0, 0, 0, 3, 0, 0, 0, 1, 2, 4, 9, 1, 0, 7, 0, 3, 1, 0, 0, 0, 1,
+   5, 6, 7, 8, 1, 2, 3, 4, 5, 6, 7, 8, 0, 1, 0, 1, 1, 12, 13, 255, 255, 255, 255, 0, 1, 0, 0]
+
+theorem samplePC_encodes' : encodeGeometry sampleChoices samplePC none sampleOpts = some sampleStream :=
+  samplePC_encodes
+
+example : ∃ r : DecodeResult, ∀ extra : Bytes, ∃ st,
+    decodeGeometry {} { rest := sampleStream ++ extra } = (some r, st) ∧
+      (sampleStream ++ extra).length - st.rest.length = sampleStream.length ∧ st.rest = extra :=
+  seq_trailing_bytes_ignored sampleChoices samplePC none sampleOpts sampleStream samplePC_ok
+    (fun m h => by cases h) samplePC_encodes'
+
+/-- **C09 (counts)**: the decoded geometry has the input's number of points, its faces (a point
+    cloud has none) and its number of attributes. -/
+theorem seq_counts (ch : Choices) (g : Geometry) (md : Option GeometryMetadata)
+    (opts : EncOpts) (bs : Bytes) (hok : GeomOK g opts) (hmd : ∀ m, md = some m → m.WF')
+    (henc : encodeGeometry ch g md opts = some bs) (extra : Bytes) :
+    ∃ r st, decodeGeometry {} { rest := bs ++ extra } = (some r, st) ∧
+      r.geometry.isMesh = g.isMesh ∧ r.geometry.numPoints = g.numPoints ∧
+      r.geometry.faces = (if g.isMesh then g.faces else []) ∧
+      r.geometry.atts.length = g.atts.length ∧
+      ∀ a ∈ r.geometry.atts, a.numValues = g.numPoints ∧ a.map = none := by
+  obtain ⟨st, h1, _⟩ := seq_roundtrip ch g md opts bs hok hmd henc extra
+  refine ⟨_, st, h1, rfl, rfl, rfl, ?_, ?_⟩
+  · simp only [expected, List.length_map]
+    have : ∀ (l : List Attribute) k, (zipIdxFrom k l).length = l.length := by
+      intro l; induction l with
+      | nil => intro _; rfl
+      | cons a as ih => intro k; simp [zipIdxFrom, ih]
+    exact this _ _
+  · intro a ha
+    simp only [expected, List.mem_map] at ha
+    obtain ⟨ia, _, rfl⟩ := ha
+    exact ⟨rfl, rfl⟩
+
+example : ∃ r st, decodeGeometry {} { rest :=
+      [68, 82, 65, 67, 79, 2, 3, 0, 0, 0, 0, 3, 0, 0, 0, 1, 2, 4, 9, 1, 0, 7, 0, 3, 1, 0, 0, 0, 1,
+       5, 6, 7, 8, 1, 2, 3, 4, 5, 6, 7, 8, 0, 1, 0, 1, 1, 12, 13, 255, 255, 255, 255, 0, 1, 0, 0] ++ [] }
+      = (some r, st) ∧ r.geometry.isMesh = false ∧ r.geometry.numPoints = 3 := by
+  obtain ⟨r, st, h1, h2, h3, _⟩ := seq_counts sampleChoices samplePC none sampleOpts _ samplePC_ok
+    (fun m h => by cases h) samplePC_encodes []
+  exact ⟨r, st, h1, h2, h3⟩
+
 end Draco.C01
